@@ -316,6 +316,22 @@ def extract(src):
     if ver != "attr:api_version" or key != "attr:api_key":
         raise KeyError("encode_api_versions_request: header no longer carries the request's api_key/api_version (%s, %s)" % (key, ver))
 
+    # ---- every broker-aware encoder groups through _group_payloads, which refuses a lost payload ------------------
+    gp = _find_func(kc, "group_payloads")
+    ok = False
+    for n in _own_nodes(gp):
+        if (isinstance(n, ast.If) and isinstance(n.test, ast.Compare) and len(n.test.ops) == 1 and isinstance(n.test.ops[0], ast.NotEq)
+                and isinstance(n.test.left, ast.Call) and isinstance(n.test.left.func, ast.Name) and n.test.left.func.id == "sum"
+                and isinstance(n.test.comparators[0], ast.Call) and getattr(n.test.comparators[0].func, "id", None) == "len"
+                and any(isinstance(b, ast.Raise) for b in n.body)):
+            ok = True
+    if not ok:
+        raise KeyError("_group_payloads: `if sum(len(..)) != len(payloads): raise` not found")
+    for enc in ("encode_produce_request", "encode_fetch_request", "encode_offset_request", "encode_offset_commit_request", "encode_offset_fetch_request"):
+        fn = _find_func(kc, enc)
+        if not any(isinstance(n, ast.Call) and isinstance(n.func, ast.Name) and n.func.id == "_group_payloads" for n in _own_nodes(fn)):
+            raise KeyError("%s no longer groups its payloads through _group_payloads" % enc)
+
     # ---- produce / fetch clamp -----------------------------------------------------------------------
     c = _clamp(_find_func(kc, "encode_produce_request"))
     out += [("produceClampAt", c["threshold"]), ("produceClampTo", c["version"]), ("produceMagicHi", c["magic_hi"]), ("produceMagicLo", c["magic_lo"])]
@@ -388,6 +404,38 @@ def extract(src):
         raise KeyError("get_api_version: expected the legacy fallback and the missing-key fallback as constant returns, found %s" % rets)
     out.append(("apiVersionFallback", rets[0]))
     out.append(("apiVersionMissingKey", rets[-1]))
+    # ---- client glue: api_ver goes to BOTH the encoder and the decoder of produce / fetch -----------------------------
+    def glue(fn_name, key_attr, enc_name, dec_name):
+        fn = src.func("client.py", "KafkaClient." + fn_name)
+        var = None
+        for n in ast.walk(fn):
+            if (isinstance(n, ast.Assign) and isinstance(n.value, ast.Yield) and isinstance(n.value.value, ast.Call)
+                    and isinstance(n.value.value.func, ast.Attribute) and n.value.value.func.attr == "get_api_version"):
+                arg = n.value.value.args[0]
+                if not (isinstance(arg, ast.Attribute) and arg.attr == key_attr):
+                    raise KeyError("%s: get_api_version is no longer asked for %s" % (fn_name, key_attr))
+                var = n.targets[0].id
+        if var is None:
+            raise KeyError("%s: `api_ver = yield self.get_api_version(...)` not found" % fn_name)
+        seen = set()
+        for n in ast.walk(fn):
+            if isinstance(n, ast.Call) and isinstance(n.func, ast.Name) and n.func.id == "partial" and n.args and isinstance(n.args[0], ast.Attribute):
+                for kw in n.keywords:
+                    if kw.arg == "api_version":
+                        if not (isinstance(kw.value, ast.Name) and kw.value.id == var):
+                            raise KeyError("%s: %s is not handed %s" % (fn_name, n.args[0].attr, var))
+                        seen.add(n.args[0].attr)
+        if seen != {enc_name, dec_name}:
+            raise KeyError("%s: api_version is handed to %s, expected encoder and decoder" % (fn_name, sorted(seen)))
+        return keys[key_attr]
+
+    out.append(("glueProduceKey", glue("send_produce_request", "PRODUCE_KEY", "encode_produce_request", "decode_produce_response")))
+    out.append(("glueFetchKey", glue("send_fetch_request", "FETCH_KEY", "encode_fetch_request", "decode_fetch_response")))
+    spr = src.func("client.py", "KafkaClient.send_produce_request")
+    if not any(isinstance(n, ast.If) and isinstance(n.test, ast.Compare) and isinstance(n.test.left, ast.Name) and n.test.left.id == "acks"
+               and isinstance(n.test.ops[0], ast.Eq) and const_value(n.test.comparators[0]) == 0 for n in ast.walk(spr)):
+        raise KeyError("send_produce_request: `if acks == 0: decoder = None` not found")
+
     # ---- producer: the message format is chosen by the truthiness of client._api_versions -------------------------
     sr = src.func("producer.py", "Producer._send_requests")
     found = None
